@@ -309,3 +309,37 @@ class VerifFailOnOperation(FloatOperation):
         if data.data == bad:
             raise ValueError("verif: deliberate failure on %r" % (bad,))
         return FloatDataType(data.data)
+
+
+# ---- exceptions with arguments that are not JSON values; a transport that fails on its k-th publish ----
+def make_raising(exc_name, arg_kind):
+    """Operation raising exc_name(arg) where arg is a legal but non-JSON value (bytes, frozenset, Path, tuple of bytes)."""
+    import pathlib
+    name = "VerifRaising_%s_%s" % (exc_name, arg_kind)
+    if name not in _cache:
+        arg = {"bytes": b"ch-Z", "frozenset": frozenset({1, 2}), "path": pathlib.PurePosixPath("/data/x"), "tuple": (b"a", 1),
+               "object": object}[arg_kind]
+        cls = {"KeyError": KeyError, "ValueError": ValueError, "LookupError": LookupError, "RuntimeError": RuntimeError}[exc_name]
+
+        def _process_logic(self, data):
+            raise cls(arg)
+        _cache[name] = type(name, (FloatOperation,), {"_process_logic": _process_logic, "__doc__": "Raises an exception whose argument is not a JSON value."})
+    return _cache[name]
+
+
+def failing_transport(fail_at):
+    """An in-memory transport whose publish() raises on the fail_at-th call (0-based) -- a full outbox, a lost connection."""
+    from semantiva.execution.transport import InMemorySemantivaTransport
+
+    class VerifFailingTransport(InMemorySemantivaTransport):
+        def __init__(self):
+            super().__init__()
+            self._calls = 0
+
+        def publish(self, *a, **k):
+            n = self._calls
+            self._calls += 1
+            if n == fail_at:
+                raise ConnectionError("verif: transport outbox full at publish #%d" % n)
+            return super().publish(*a, **k)
+    return VerifFailingTransport()
